@@ -138,6 +138,10 @@ class Explorer:
                                         parallel=self.parallel)
                     if st == 'proved':
                         g.proved_node = g.node
+                        if text and not getattr(out, 'query_excerpt', None):
+                            lines_ = text.splitlines()
+                            out.query_excerpt = {'goal': g.label, 'smtlib_lines': len(lines_),
+                                                 'head': lines_[:4], 'tail': lines_[-4:]}
                     for alt in g.alts:
                         if st == 'proved':
                             break
@@ -186,7 +190,7 @@ class Explorer:
                     return out
                 seen_regions.add(key)
                 if len(out.region_samples) < 2:
-                    out.region_samples.append({'witness': {n: round(float(v), 6) for n, v in list(witness.items())[:12]},
+                    out.region_samples.append({'solver_query': getattr(out, 'query_excerpt', None),'witness': {n: round(float(v), 6) for n, v in list(witness.items())[:12]},
                                                'path_conditions': [d.to_str(c, 6) for c in pcs[:12]],
                                                'n_path_conditions': len(pcs),
                                                'goals': [g.label for g in goals][:12]})
